@@ -240,6 +240,9 @@ func c17Work(c *mc.Ctx) {
 	if c.Owns(3) {
 		c17OptionsByValue(c)
 	}
+	if c.Owns(4) {
+		c17NamedFallback(c)
+	}
 	if !c.Owns(0) && !c.Owns(1) {
 		return
 	}
@@ -669,6 +672,93 @@ func c17Subjects(c *mc.Ctx) {
 						if (oerr == nil) != (werr == nil) || (oerr == nil && ogot != want) {
 							c.Violation(pre+"registration-leaks-to-another-instance", fmt.Sprintf("field %s tagged %q: %s (%v) vs fresh %s (%v)", ft, useTag, ogot, oerr, want, werr))
 							return
+						}
+					}
+				}
+				c.Outcome("ok")
+			})
+		}
+	}
+}
+
+// c17NamedFallback: a named type of a basic kind uses the codec its instance holds for the builtin
+// type of EXACTLY that kind under exactly that tag. For each builtin type and tag one registration is
+// made on a fresh instance; then a field of every named basic type under every tag must use the
+// registered codec if and only if its kind and tag are the registered ones, and otherwise encode
+// exactly as on a fresh instance (a sibling kind of the same width must not follow).
+func c17NamedFallback(c *mc.Ctx) {
+	type kind struct {
+		builtin, named reflect.Type
+	}
+	kinds := []kind{
+		{reflect.TypeOf(false), reflect.TypeOf(gen.NBool(false))},
+		{reflect.TypeOf(int(0)), reflect.TypeOf(gen.NInt(0))}, {reflect.TypeOf(int8(0)), reflect.TypeOf(gen.NInt8(0))},
+		{reflect.TypeOf(int16(0)), reflect.TypeOf(gen.NInt16(0))}, {reflect.TypeOf(int32(0)), reflect.TypeOf(gen.NInt32(0))},
+		{reflect.TypeOf(int64(0)), reflect.TypeOf(gen.NInt64(0))},
+		{reflect.TypeOf(uint(0)), reflect.TypeOf(gen.NUint(0))}, {reflect.TypeOf(uint8(0)), reflect.TypeOf(gen.NUint8(0))},
+		{reflect.TypeOf(uint16(0)), reflect.TypeOf(gen.NUint16(0))}, {reflect.TypeOf(uint32(0)), reflect.TypeOf(gen.NUint32(0))},
+		{reflect.TypeOf(uint64(0)), reflect.TypeOf(gen.NUint64(0))},
+		{reflect.TypeOf(float32(0)), reflect.TypeOf(gen.NFloat32(0))}, {reflect.TypeOf(float64(0)), reflect.TypeOf(gen.NFloat64(0))},
+		{reflect.TypeOf(""), reflect.TypeOf(gen.NString(""))},
+	}
+	tags := []string{"", "flat", "custom"}
+	wantMarker := hx(append([]byte{0x08}, plenccore.AppendVarUint(nil, 2007)...))
+	for _, reg := range kinds {
+		for _, regTag := range tags {
+			if !c.Begin(fmt.Sprintf(`{"set":"named-fallback","builtin":%q,"registered_tag":%q}`, reg.builtin.String(), regTag)) {
+				continue
+			}
+			c.AddEvals(1)
+			c.Count("states", 1)
+			c.Dim("named-fallback")
+			c.NonTrivial()
+			pre := fmt.Sprintf("named-fallback|%s|reg=%q|", reg.builtin, regTag)
+			c.Guard(pre, func() {
+				p := NewPlenc(ref.Cfg{})
+				fresh := NewPlenc(ref.Cfg{})
+				if regTag == "" {
+					p.RegisterCodec(reg.builtin, subjCodec{7, reg.builtin})
+				} else {
+					p.RegisterCodecWithTag(reg.builtin, regTag, subjCodec{7, reg.builtin})
+				}
+				enc := func(q *plenc.Plenc, ft reflect.Type, useTag string) (string, error) {
+					tg := `plenc:"1"`
+					if useTag != "" {
+						tg = `plenc:"1,` + useTag + `"`
+					}
+					st := reflect.StructOf([]reflect.StructField{{Name: "F", Type: ft, Tag: reflect.StructTag(tg)}})
+					v := reflect.New(st)
+					// a non-zero value, so that the library's own codecs write something too
+					switch ft.Kind() {
+					case reflect.Bool:
+						v.Elem().Field(0).SetBool(true)
+					case reflect.String:
+						v.Elem().Field(0).SetString("x")
+					case reflect.Float32, reflect.Float64:
+						v.Elem().Field(0).SetFloat(1.5)
+					case reflect.Uint, reflect.Uint8, reflect.Uint16, reflect.Uint32, reflect.Uint64:
+						v.Elem().Field(0).SetUint(3)
+					default:
+						v.Elem().Field(0).SetInt(3)
+					}
+					b, err := q.Marshal(nil, v.Interface())
+					return hx(b), err
+				}
+				for _, use := range kinds {
+					for _, useTag := range tags {
+						for _, ft := range []reflect.Type{use.named, use.builtin} {
+							c.Ops(2)
+							hit := use.builtin == reg.builtin && useTag == regTag
+							got, gerr := enc(p, ft, useTag)
+							want, werr := enc(fresh, ft, useTag)
+							switch {
+							case hit && (gerr != nil || got != wantMarker):
+								c.Violation(pre+"named-type-does-not-follow-its-kind", fmt.Sprintf("field %s tagged %q encodes as %s (%v); the codec registered for %s under %q writes %s", ft, useTag, got, gerr, reg.builtin, regTag, wantMarker))
+								return
+							case !hit && ((gerr == nil) != (werr == nil) || (gerr == nil && got != want)):
+								c.Violation(pre+"registration-followed-by-another-kind-or-tag", fmt.Sprintf("field %s tagged %q: %s (%v) on the instance with a registration for (%s, %q), %s (%v) on a fresh instance", ft, useTag, got, gerr, reg.builtin, regTag, want, werr))
+								return
+							}
 						}
 					}
 				}
